@@ -12,6 +12,10 @@ well-formed base requests.  A realisation is a `Msg`:
                       that is unusual / oversized / not canonical: the property does
                       not say how it must be answered
            "mal"      violates the RFC 7230 grammar or is not HTTP at all
+           "badlen"   Content-Length is not a number / empty / has two different values: to be
+                      refused with 4xx/5xx, in one piece and when only the header block has arrived
+                      (negative values, "+11", "1_1" are dispatched by the code under test and left
+                      open: wf "mal")
            "unsup"    a request of another major HTTP version (HTTP/2.0, HTTP/0.9): unsupported
                       input, to be refused with 4xx/5xx whatever leniency the parser has
            "partial"  a proper prefix of a base request (Truncate) - the rest may follow
@@ -290,26 +294,28 @@ SUBS = {
         ('only_colon_lines', 'mal', lambda b, r: b.build(rawheaders=b':\r\n:\r\n')),
     ],
     'BadCL': [
-        ('nonnumeric', 'mal', _cl([b'abc'])),
-        ('float', 'mal', _cl([b'11.0'])),
-        ('exp', 'mal', _cl([b'1e1'])),
-        ('hex', 'mal', _cl([b'0xb'])),
-        ('empty', 'mal', _cl([b''])),
+        ('nonnumeric', 'badlen', _cl([b'abc'])),
+        ('float', 'badlen', _cl([b'11.0'])),
+        ('exp', 'badlen', _cl([b'1e1'])),
+        ('hex', 'badlen', _cl([b'0xb'])),
+        ('empty', 'badlen', _cl([b''])),
         ('plus', 'mal', _cl([b'+11'])),
         ('underscore', 'mal', _cl([b'1_1'])),
-        ('unicode_digit', 'mal', _cl([b'\xd9\xa1\xd9\xa1'])),
-        ('spaces_inside', 'mal', _cl([b'1 1'])),
+        ('unicode_digit', 'badlen', _cl([b'\xd9\xa1\xd9\xa1'])),
+        ('spaces_inside', 'badlen', _cl([b'1 1'])),
         ('negative', 'mal', _cl([b'-5'])),
         ('negative_one', 'mal', _cl([b'-1'])),
         ('negative_huge', 'mal', _cl([b'-' + b'9' * 25])),
         ('huge', 'hostile', _cl([b'9' * 25])),
         ('too_small', 'hostile', _cl([b'3'])),
-        ('dup_conflict', 'mal', _cl([b'5', b'7'])),
-        ('dup_conflict_rev', 'mal', _cl([b'11', b'0'])),
+        ('dup_conflict', 'badlen', _cl([b'5', b'7'])),
+        ('dup_conflict_rev', 'badlen', _cl([b'11', b'0'])),
         ('dup_same', 'hostile', _cl([b'11', b'11'])),
-        ('list_conflict', 'mal', _cl([b'11, 12'])),
+        ('list_conflict', 'badlen', _cl([b'11, 12'])),
+        ('trailing_x', 'badlen', _cl([b'5x'])),
+        ('dup_56', 'badlen', _cl([b'5', b'6'])),
         ('with_chunked', 'mal', lambda b, r: BASE['postchunked'].build(headers=BASE['postchunked'].with_header(b'Content-Length', b'4', replace=False))),
-        ('on_get_nonnumeric', 'mal', lambda b, r: BASE['get11'].build(headers=BASE['get11'].with_header(b'Content-Length', b'none'))),
+        ('on_get_nonnumeric', 'badlen', lambda b, r: BASE['get11'].build(headers=BASE['get11'].with_header(b'Content-Length', b'none'))),
         ('on_get_negative', 'mal', lambda b, r: BASE['get11'].build(headers=BASE['get11'].with_header(b'Content-Length', b'-0'))),
     ],
     'BadChunk': [
@@ -378,6 +384,24 @@ SUBS = {
         ('sslv2_short', 'mal', lambda b, r: _sslv2_hello(r)[:1]),
     ],
 }
+
+SMUGGLED = b'GET /admin HTTP/1.1\r\nHost: verif.example\r\n\r\n'
+
+
+def badlen_splits(rnd):
+    """Every bad-length mutant as (header block only, what follows): the bytes the message
+    declares to be its body look like a request and arrive in a later read."""
+    out = []
+    for name, wf, fn in SUBS['BadCL']:
+        if wf != 'badlen':
+            continue
+        data = fn(BASE['postcl'], rnd)
+        cut = data.find(b'\r\n\r\n') + 4
+        head = Msg('BadCL', name + ':head', 'badlen', data[:cut], b'', 'postcl')
+        body = Msg('Fuzz', 'smuggled', 'hostile', SMUGGLED, b'', '')
+        out.append((head, body))
+    return out
+
 
 def tls_bases():
     """Complete TLS / SSLv2 client hellos (fixed bytes) for the class "TlsCut"."""
